@@ -46,7 +46,7 @@ def strategy(tier):
              "content_path": draw(st.sampled_from(["root", "parent"])),
              "meta_kind": draw(st.sampled_from(["own", "own", "ref"]))}
         if cmd in ("create", "new"):
-            c["out_mode"] = draw(st.sampled_from(["none", "file", "existing-file", "dir"]))
+            c["out_mode"] = draw(st.sampled_from(["none", "file", "existing-file", "dir", "dangling-symlink"]))
             c["version"] = draw(st.sampled_from(["1", "2", "3"]))
             if draw(st.sampled_from([True] + [False] * 5)):
                 # a payload that is itself called *.torrent (a single file, or a directory)
@@ -65,7 +65,9 @@ def strategy(tier):
                 t["name"] = "L" * 243 + draw(st.sampled_from([" disc 1", " disc 2", "-final!"]))
                 c["tree"] = t
             c["occupied"] = draw(st.booleans())
-            c["occupant"] = draw(st.sampled_from(["junk", "identical-copy", "same-info-other-trackers"]))
+            c["occupant"] = draw(st.sampled_from(["junk", "identical-copy", "same-info-other-trackers", "dangling-symlink"]))
+            # a metafile whose info.name is not a single path component: rename must still only change the file's name
+            c["hostile_name"] = draw(st.sampled_from([None] * 5 + ["outdir/x", "../x", "./y", "outdir/../z"]))
             c["mf_name"] = draw(st.sampled_from(["m.torrent", "weird name.torrent", "x"]))
         if cmd in ("magnet", "m"):
             c["mv"] = draw(st.sampled_from(["0", "1", "2", "3"]))
@@ -83,6 +85,7 @@ def run_case(case):
     if name.endswith(".torrent") and case["cmd"] not in ("create", "new"):
         return Outcome(None, False, ["name-clash"])
     classes = ["cmd-" + case["cmd"]]
+    hostile = None
     with sandbox.Scratch("c18") as scr:
         box = os.path.join(scr, "box")
         os.makedirs(box)
@@ -93,8 +96,13 @@ def run_case(case):
             if case.get("meta_kind") == "ref":
                 # a foreign metafile: no 'created by' / 'creation date', conformant v2 single file without info.length
                 ver = {"TorrentFile": 1, "Assembler2": 2, "Assembler3": 3}[case["creator"]]
+                mtree = tree
+                if case["cmd"] == "rename" and case.get("hostile_name"):
+                    mtree = dict(tree, name=case["hostile_name"])
+                    hostile = case["hostile_name"]
+                    classes.append("name-with-separator")
                 with open(mf, "wb") as fd:
-                    fd.write(refmeta.build(tree, 16384, ver, trailing_pad=True))
+                    fd.write(refmeta.build(mtree, 16384, ver, trailing_pad=True))
                 classes.append("foreign-metafile")
             else:
                 common.create(case["creator"], "lib", root, mf, 16384)
@@ -143,9 +151,11 @@ def run_case(case):
                     target_new = os.path.join(box, made[0])
                     classes.append("learned-destination")
                 target.reset()
-        if case["cmd"] == "rename" and case["occupied"] and target_new is not None:
+        if case["cmd"] == "rename" and case["occupied"] and target_new is not None and hostile is None:
             kind = case.get("occupant", "junk")
-            if kind == "junk":
+            if kind == "dangling-symlink":
+                data = None
+            elif kind == "junk":
                 data = b"occupant"
             else:
                 with open(mf, "rb") as fd:
@@ -157,8 +167,11 @@ def run_case(case):
                     top[b"announce"] = b"http://other.example/announce"
                     top[b"comment"] = b"occupant"
                     data = refbencode.encode(top)
-            with open(target_new, "wb") as fd:
-                fd.write(data)
+            if data is None:
+                os.symlink("gone-elsewhere.torrent", target_new)      # an existing directory entry all the same
+            else:
+                with open(target_new, "wb") as fd:
+                    fd.write(data)
             classes.append("rename-occupied")
             classes.append("occupant-" + kind)
         with open(mf, "rb") as fd:
@@ -169,6 +182,7 @@ def run_case(case):
         cmd = case["cmd"]
         exc = None
         expect_changed = None
+        alt_changed = None
         old = os.getcwd()
         os.chdir(box)
         try:
@@ -197,6 +211,14 @@ def run_case(case):
                 elif om == "existing-file":
                     argv += ["-o", mf]
                     expect_changed = mf_name
+                elif om == "dangling-symlink":
+                    # the output path exists as a symbolic link whose target does not: either the link's target comes into being
+                    # (written through) or the link gives way to the metafile - one file, not both
+                    os.symlink("not-yet.torrent", os.path.join(box, "outdir", "link.torrent"))
+                    before = sandbox.snapshot(box)
+                    argv += ["-o", os.path.join(box, "outdir", "link.torrent")]
+                    expect_changed = "outdir/link.torrent"
+                    alt_changed = "outdir/not-yet.torrent"
                 else:
                     argv += ["-o", os.path.join(box, "outdir") + "/"]
                     expect_changed = "outdir/" + name + ".torrent"
@@ -216,6 +238,8 @@ def run_case(case):
     if cmd in ("create", "new"):
         if exc is not None:
             return Outcome(Violation("C18:create:exception:%s" % type(exc).__name__, "create raised %r" % (exc,)), True, classes)
+        if alt_changed is not None and [p for p, _ in diff] == [alt_changed]:
+            expect_changed = alt_changed
         other = [(p, c) for p, c in diff if p != expect_changed]
         if (len(diff) == 1 and diff[0][1] == "created" and name.endswith(".torrent")
                 and not (diff[0][0] == name or diff[0][0].startswith(name + "/"))):
@@ -235,6 +259,16 @@ def run_case(case):
             if expect_changed not in after:
                 return Outcome(Violation("C18:create:no-output", "create did not write %s" % expect_changed), True, classes)
         return Outcome(None, nontrivial, classes)
+    if cmd == "rename" and hostile is not None:
+        # refusing is fine; otherwise the file keeps its directory and its bytes
+        if exc is not None and not diff:
+            return Outcome(None, True, classes + ["refused"])
+        created = [p for p, c in diff if c == "created"]
+        ok = (sorted(c for _, c in diff) == ["created", "deleted"] and (mf_name, "deleted") in diff and "/" not in created[0]
+              and after[created[0]][1:3] == before[mf_name][1:3])
+        if not ok:
+            return Outcome(Violation("C18:rename:left-its-directory", "rename of a metafile named %r: changes=%r (exception %r)" % (hostile, diff[:4], exc)), True, classes)
+        return Outcome(None, True, classes)
     if cmd == "rename":
         new_rel = name + ".torrent"
         if too_long:
